@@ -358,14 +358,23 @@ Definition op_checkmultisigverify (so : sigops) (s : stack) : result stack :=
 Definition schnorr_split (sg : bytes) : bytes * Z :=
   if (length sg =? 65)%nat then (removelast sg, last sg 0) else (sg, 0).
 
+(* BIP341 "signature validation rules" as op.py applies them to a non-empty signature: 64 bytes
+   (SIGHASH_DEFAULT), or 65 bytes whose last byte is one of 01 02 03 81 82 83; anything else makes
+   the op code return False *)
+Definition schnorr_ht_defined (ht : Z) : bool :=
+  (ht =? 1) || (ht =? 2) || (ht =? 3) || (ht =? 129) || (ht =? 130) || (ht =? 131).
+Definition schnorr_form_ok (sg : bytes) : bool :=
+  (length sg =? 64)%nat || ((length sg =? 65)%nat && schnorr_ht_defined (last sg 0)).
+
 Definition op_checksig_schnorr (so : sigops) (s : stack) : result stack :=
   match s with
   | pk :: sg :: r =>
       if negb (so_xonly_ok so pk) then Err
       else match sg with
            | [] => Ok (encode_num 0 :: r)
-           | _ => let '(sg', ht) := schnorr_split sg in
-                  b <- so_schnorr so pk sg' ht ;; Ok (enc_bool b :: r)
+           | _ => if negb (schnorr_form_ok sg) then Err
+                  else let '(sg', ht) := schnorr_split sg in
+                       b <- so_schnorr so pk sg' ht ;; Ok (enc_bool b :: r)
            end
   | _ => Err
   end.
@@ -378,8 +387,9 @@ Definition op_checksigadd_schnorr (so : sigops) (s : stack) : result stack :=
       if negb (so_xonly_ok so pk) then Err
       else match sg with
            | [] => Ok (encode_num n :: r)
-           | _ => let '(sg', ht) := schnorr_split sg in
-                  b <- so_schnorr so pk sg' ht ;; Ok (encode_num (if b then n + 1 else n) :: r)
+           | _ => if negb (schnorr_form_ok sg) then Err
+                  else let '(sg', ht) := schnorr_split sg in
+                       b <- so_schnorr so pk sg' ht ;; Ok (encode_num (if b then n + 1 else n) :: r)
            end
   | _ => Err
   end.
